@@ -3,7 +3,7 @@
 # (demo fails with it, passes without, existing suite still passes), then run the named checks against it.
 # Results: /verif/seeded/<PROP>-<k>/{patch.diff,demo_test.go,meta.json,result.txt}
 P=$1; K=$2; CHECKS=${3:-$P}
-SRC=/tmp/seed/out/$P
+SRC=${SRCROOT:-/tmp/seed/out}/$P
 OUT=/verif/seeded/$P-$K
 export GOPROXY=off GOSUMDB=off GOTOOLCHAIN=local
 [ -f $SRC/patch$K.diff ] || { echo "no patch $SRC/patch$K.diff"; exit 2; }
@@ -14,7 +14,7 @@ res=$OUT/result.txt; : > $res
 cleanup() { git -C /repo worktree remove --force $W >/dev/null 2>&1; rm -rf $W; }
 trap cleanup EXIT
 cd $W
-if ! git apply --3way $OUT/patch.diff 2>/tmp/seedeval.err && ! patch -p1 --fuzz=3 -s < $OUT/patch.diff 2>>/tmp/seedeval.err; then
+if ! git apply --3way $OUT/patch.diff 2>/tmp/seedeval-$P-$K.err && ! patch -p1 --fuzz=3 -s < $OUT/patch.diff 2>>/tmp/seedeval-$P-$K.err; then
   echo "apply: FAILED (does not apply to current HEAD)" | tee -a $res; exit 3
 fi
 git reset -q; echo "apply: ok ($(git diff --stat | tail -1))" | tee -a $res
@@ -34,10 +34,11 @@ PY
 )
 mkdir -p "$(dirname $W/$dest)"; cp $OUT/demo_test.go "$W/$dest"
 pkgdir=$(dirname "$dest"); tname=$(grep -o "^func Test[A-Za-z0-9_]*" $OUT/demo_test.go | sed 's/func //' | paste -sd'|')
-rundemo() { (cd $W/$pkgdir && unset GOFLAGS && timeout 300 go test -vet=off -count=1 -run "^($tname)\$" . > /tmp/seedeval.demo 2>&1); echo $?; }
+tags=""; grep -q -- "-tags verif" $OUT/meta.orig.json && tags="-tags verif"
+rundemo() { (cd $W/$pkgdir && unset GOFLAGS && timeout 300 go test $tags -vet=off -count=1 -run "^($tname)\$" . > /tmp/seedeval-$P-$K.demo 2>&1); echo $?; }
 rc=$(rundemo); echo "demo with change: rc=$rc (expected non-zero)" | tee -a $res
-(cd $W && unset GOFLAGS && timeout 600 go test -vet=off -count=1 ./... > /tmp/seedeval.suite 2>&1; echo "suite with change (root): rc=$? fails: $(grep -c '^--- FAIL' /tmp/seedeval.suite) [$(grep '^--- FAIL' /tmp/seedeval.suite | grep -v 'TestC[0-9]*\|Demo\|demo' | cut -c1-70 | paste -sd';')]") | tee -a $res
-(cd $W/schema && unset GOFLAGS && timeout 300 go test -vet=off -count=1 ./... > /tmp/seedeval.suite2 2>&1; echo "suite with change (schema): rc=$?") | tee -a $res
+(cd $W && unset GOFLAGS && timeout 600 go test -vet=off -count=1 ./... > /tmp/seedeval-$P-$K.suite 2>&1; echo "suite with change (root): rc=$? fails: $(grep -c '^--- FAIL' /tmp/seedeval-$P-$K.suite) [$(grep '^--- FAIL' /tmp/seedeval-$P-$K.suite | grep -v 'TestC[0-9]*\|Demo\|demo' | cut -c1-70 | paste -sd';')]") | tee -a $res
+(cd $W/schema && unset GOFLAGS && timeout 300 go test -vet=off -count=1 ./... > /tmp/seedeval-$P-$K.suite2 2>&1; echo "suite with change (schema): rc=$?") | tee -a $res
 # undo the change, keep the demo
 git -C $W checkout -q -- . ; rc2=$(rundemo); echo "demo without change: rc=$rc2 (expected 0)" | tee -a $res
 # re-apply for the checks
@@ -49,3 +50,4 @@ for c in $CHECKS; do
   echo "   $(echo "$out" | tail -1)" | tee -a $res
 done
 rm -rf /tmp/seedout-$P-$K
+rm -f /tmp/seedeval-$P-$K.demo /tmp/seedeval-$P-$K.suite /tmp/seedeval-$P-$K.suite2 /tmp/seedeval-$P-$K.err
